@@ -1,6 +1,6 @@
 """C05 - the linear program optyx extracts is the model the user wrote."""
 import numpy as np
-from .. import apirun, progjudge, interp
+from .. import apirun, progjudge, interp, common
 from ..common import pviolation, bump
 from ..interp import name_of
 from .c16 import fbound, check_code_table
@@ -86,6 +86,21 @@ def observer(got, pred, sp, call, sg, prog, ctx, part):
     if hb != wb:
         bad('bounds differ from the declared bounds', {'got': hb, 'expected': wb})
         return
+    # the LP that actually reaches linprog (first solve, a solve that linprog rejects, the next solve): a stratified subset
+    import hashlib
+    from .c08 import stratified_keep
+    h = int(hashlib.sha1((prog + 'c05seam' + str(common.seed())).encode()).hexdigest()[:8], 16)
+    if stratified_keep(ctx, part, h, 30, per_shape=1):
+        import optyx
+        other = optyx.Problem()
+        (other.maximize if lp['sense'] == 'min' else other.minimize)(ctx.cur_objs[call['a']])
+        if call['b']:
+            other.subject_to(ctx.cur_objs[call['b']])
+        for prob_, lp_ in ((got, lp), (other, dict(lp, sense='max' if lp['sense'] == 'min' else 'min'))):
+            d = seam_lp(prob_, lp_, wb, veq)
+            if d:
+                bad(d[0], dict(d[1] or {}, orientation=lp_['sense']))
+                return
     # per-variable coefficient API
     vm = {v.name: v for v in got.variables}
     for n, x in zip(want_names, lp['c']):
@@ -97,6 +112,53 @@ def observer(got, pred, sp, call, sg, prog, ctx, part):
         if abs(float(cf) - fq(x)) > 1e-12 * (1 + abs(fq(x))):
             bad('extract_linear_coefficient differs from the true coefficient', {'var': n, 'got': float(cf), 'expected': fq(x)})
             return
+
+
+def seam_lp(prob, lp, wb, veq):
+    """Solve, solve with a keyword linprog rejects (reported FAILED), solve again: every time linprog is entered its cost
+    vector (negated for maximise), rows, right-hand sides and bounds must be the LP of the model.  -> None | (observable, detail)"""
+    import warnings
+    import scipy.optimize
+    real = scipy.optimize.linprog
+    seen = []
+
+    def capture(*a, **kw):
+        snap = dict(kw, c=a[0]) if a else dict(kw)
+        # a snapshot of what linprog is handed at this moment (the caller may legitimately reuse or restore its arrays afterwards)
+        seen.append({k: (np.array(v, dtype=float, copy=True) if isinstance(v, np.ndarray) else (list(v) if isinstance(v, list) else v)) for k, v in snap.items()})
+        return real(*a, **kw)
+    scipy.optimize.linprog = capture
+    try:
+        with warnings.catch_warnings():
+            warnings.simplefilter('ignore')
+            for step, kw in (('first solve', {}), ('rejected keyword', {'no_such_option_': 1}), ('solve after a rejected one', {})):
+                seen.clear()
+                try:
+                    s = prob.solve(**kw)
+                except Exception as e:
+                    return 'solve raises %s on a linear problem (%s)' % (type(e).__name__, step), None
+                if kw:
+                    continue
+                if not seen:
+                    return 'a linear problem did not reach linprog (%s)' % step, None
+                k = seen[-1]
+                sign = -1.0 if lp['sense'] == 'max' else 1.0
+                if not veq(np.asarray(k['c'], dtype=float), [sign * fq(x) for x in lp['c']]):
+                    return 'cost vector handed to linprog is not the objective\'s coefficients (%s)' % step, {'got': list(map(float, k['c'])), 'expected': [sign * fq(x) for x in lp['c']]}
+                for grp, A, b in (('ub', k.get('A_ub'), k.get('b_ub')), ('eq', k.get('A_eq'), k.get('b_eq'))):
+                    rows = lp[grp]
+                    n_have = 0 if A is None else len(A)
+                    if n_have != len(rows):
+                        return 'number of %s rows handed to linprog (%s)' % (grp, step), {'got': n_have, 'expected': len(rows)}
+                    for i, r in enumerate(rows):
+                        if not veq(A[i], [fq(x) for x in r['a']]) or abs(float(b[i]) - fq(r['b'])) > 1e-12 * (1 + abs(fq(r['b']))):
+                            return 'constraint row handed to linprog differs from the written constraint (%s)' % step, {'group': grp, 'row': i}
+                hb = [(None if lo is None or lo == -np.inf else float(lo), None if hi is None or hi == np.inf else float(hi)) for lo, hi in (k.get('bounds') or [])]
+                if hb != wb:
+                    return 'bounds handed to linprog differ from the declared bounds (%s)' % step, {'got': hb, 'expected': wb}
+    finally:
+        scipy.optimize.linprog = real
+    return None
 
 
 def lpsite(pred):
